@@ -33,6 +33,7 @@ import warnings
 import numpy as np
 
 from .. import gen, ref
+from ._c14_c15_views import share_a_table, table_views
 from ..core import digest
 
 ID = "C14"
@@ -53,7 +54,9 @@ RULE = (
     "valid values (size 0, an all-zero extra coordinate, points on the northing axis); extra coordinates with NaN / +-inf at points "
     "whose easting/northing are finite (border points of the cloud included), each such call twinned with the two-coordinate call; "
     "expanding sizes as one-shot iterables (reversed, map, generator, iter) declared to the monitor; a few large cases (more than 2048 "
-    "windows in one call, e.g. shape (50, 60); expanding windows on >= 1e4 and >= 1e5 points). Non-trivial rolling case = at least two windows with different "
+    "windows in one call, e.g. shape (50, 60); expanding windows on >= 1e4 and >= 1e5 points); argument aliasing: easting and northing as "
+    "column views of ONE table ((t[:,0], t[:,1]), (t[:,1], t[:,0]), northing, easting = t.T, reversed rows, columns of a wider table, "
+    "Fortran-ordered tables, the last axis of a 3-D table), twinned with contiguous copies. Non-trivial rolling case = at least two windows with different "
     "selections, at least one decided inside and one decided outside (point, window) pair; non-trivial expanding case = at least two "
     "sizes with different selections. Distinct = hash of the coordinate arrays and the configuration."
 )
@@ -116,6 +119,12 @@ FLOORS = {
         "expanding:class:sizes_one_shot_iterable_list_reverseiterator": 21, "expanding:class:sizes_one_shot_iterable_map": 16,
         "class:more_than_2048_windows_in_one_call": 13, "class:more_than_2048_windows_given_by_shape": 1,
         "expanding:class:at_least_10000_points": 2, "expanding:class:at_least_100000_points": 1,
+        "class:easting_and_northing_are_views_of_one_table": 96, "class:table_views_with_reversed_rows": 7,
+        "expanding:class:easting_and_northing_are_views_of_one_table": 56, "eval:aliasing_twin.rolling_window": 77,
+        "eval:aliasing_twin.expanding_window": 33, "aliasing:columns_0_1": 7, "aliasing:columns_1_0_northing_stored_first": 13,
+        "aliasing:columns_of_a_wider_table": 6, "aliasing:fortran_ordered_table": 6,
+        "aliasing:fortran_ordered_table_northing_first": 6, "aliasing:last_axis_of_a_3d_table": 28, "aliasing:reversed_rows": 7,
+        "aliasing:unpacked_transpose_northing_first": 7,
     },
     "thorough": {
         "eval:rolling_window.centres": 13800, "eval:rolling_window.index_form": 13800, "eval:rolling_window.membership": 13800,
@@ -164,11 +173,19 @@ FLOORS = {
         "expanding:class:sizes_one_shot_iterable_list_reverseiterator": 420, "expanding:class:sizes_one_shot_iterable_map": 320,
         "class:more_than_2048_windows_in_one_call": 260, "class:more_than_2048_windows_given_by_shape": 2,
         "expanding:class:at_least_10000_points": 8, "expanding:class:at_least_100000_points": 4,
+        "class:easting_and_northing_are_views_of_one_table": 1920, "class:table_views_with_reversed_rows": 140,
+        "expanding:class:easting_and_northing_are_views_of_one_table": 1120, "eval:aliasing_twin.rolling_window": 1540,
+        "eval:aliasing_twin.expanding_window": 660, "aliasing:columns_0_1": 140,
+        "aliasing:columns_1_0_northing_stored_first": 260, "aliasing:columns_of_a_wider_table": 120,
+        "aliasing:fortran_ordered_table": 120, "aliasing:fortran_ordered_table_northing_first": 120,
+        "aliasing:last_axis_of_a_3d_table": 560, "aliasing:reversed_rows": 140,
+        "aliasing:unpacked_transpose_northing_first": 140,
     },
 }
 JOBS = {"quick": 1, "thorough": 8}
 CASE_TIMEOUT_S = 120
 
+ALIAS_KIND = {}  # id(easting view) -> how the table views were made (workload bookkeeping for the counters)
 ONE_SHOT_SIZES = {}  # id(iterator) -> the sizes it will yield (declared by the workload just before the call)
 REL_MARGIN = 1e-9
 MAX_PAIRS = 1_500_000  # points x windows per call (workload keeps below; the monitor chunks anyway)
@@ -363,6 +380,10 @@ def _describe_input(run, arrays, prefix=""):
         run.count(prefix + "class:input_%dd" % first.ndim)
     if not first.flags.c_contiguous and not first.flags.f_contiguous:
         run.count(prefix + "class:input_strided_view")
+    if share_a_table(arrays[0], arrays[1]):
+        run.count(prefix + "class:easting_and_northing_are_views_of_one_table")
+        if arrays[0].ndim == 1 and arrays[0].strides[0] < 0:
+            run.count(prefix + "class:table_views_with_reversed_rows")
     if np.issubdtype(first.dtype, np.integer):
         run.count(prefix + "class:integer_coordinates")
     if len(arrays) > 2:
@@ -793,6 +814,19 @@ def install(tap, run):
 def _layout(rng, flat_arrays, allow_2d=True):
     """Present the same point sequence as 1-D, 2-D (C / Fortran order) or strided arrays."""
     size = flat_arrays[0].size
+    if rng.random() < 0.2 and flat_arrays[0].dtype.kind == "f" and flat_arrays[1].dtype.kind == "f":
+        # argument aliasing: easting and northing are column views of one common table
+        east, north = flat_arrays[0], flat_arrays[1]
+        rest = list(flat_arrays[2:])
+        if allow_2d and rng.random() < 0.3 and size >= 4:
+            rows = [r for r in range(2, min(size, 40)) if size % r == 0]
+            if rows:
+                r = int(rng.choice(rows))
+                east, north = east.reshape(r, -1), north.reshape(r, -1)
+                rest = [a.reshape(r, -1) for a in rest]
+        ev, nv, kind, _ = table_views(rng, east, north)
+        ALIAS_KIND[id(ev)] = kind
+        return (ev, nv) + tuple(np.ascontiguousarray(a) for a in rest)
     mode = int(rng.integers(0, 6))
     if allow_2d and mode in (1, 2, 3) and size >= 4:
         rows = [r for r in range(2, min(size, 40)) if size % r == 0 and size // r != r]
@@ -866,9 +900,17 @@ def _same_selection(a, b):
     return sorted(zip(*[np.asarray(p).tolist() for p in a])) == sorted(zip(*[np.asarray(p).tolist() for p in b]))
 
 
-def _extras_ignored(run, what, with_extras, without):
+def _aliasing_twin(run, what, coords, result, call):
+    """Table views of one array must give what contiguous copies of the same values give."""
+    if share_a_table(coords[0], coords[1]):
+        run.count("aliasing:" + ALIAS_KIND.get(id(coords[0]), "unknown"))
+        copies = tuple(np.array(c, order="C", copy=True) for c in coords)
+        _extras_ignored(run, what, result, call(copies), monitor="aliasing_twin", label="table views instead of contiguous copies")
+
+
+def _extras_ignored(run, what, with_extras, without, monitor="extras_ignored", label="non-finite extra coordinates"):
     """Metamorphic twin: the call on (easting, northing, extras...) must equal the call on (easting, northing)."""
-    run.evaluated("extras_ignored." + what)
+    run.evaluated(monitor + "." + what)
     problem = None
     if (with_extras is None) != (without is None):
         problem = "one of the two calls was refused"
@@ -882,8 +924,8 @@ def _extras_ignored(run, what, with_extras, without):
         elif len(with_extras) != len(without) or not all(_same_selection(a, b) for a, b in zip(with_extras, without)):
             problem = "window indices differ"
     if problem:
-        run.violation("extras_ignored." + what, "non-finite extra coordinates changed the result: " + problem,
-                      {"with_extras": repr(with_extras)[:800], "two_coordinates": repr(without)[:800]}, key="extras:" + what)
+        run.violation(monitor + "." + what, label + " changed the result: " + problem,
+                      {"result": repr(with_extras)[:800], "twin_result": repr(without)[:800]}, key=monitor + ":" + what)
 
 
 def _one_shot(rng, sizes):
@@ -1053,6 +1095,7 @@ def _rolling_case(run, vc, rng):
     out = _call_rolling(run, vc, coords, **kwargs)
     if poisoned:
         _extras_ignored(run, "rolling_window", out, _call_rolling(run, vc, coords[:2], **kwargs))
+    _aliasing_twin(run, "rolling_window", coords, out, lambda c: _call_rolling(run, vc, c, **kwargs))
     if out is not None:
         run.sample("rolling", {"coordinates": coords[:2], "n_extra": len(coords) - 2, "kwargs": kwargs,
                                "centres_shape": list(out[0][0].shape), "first_window_index": repr(out[1].ravel()[0])[:300]})
@@ -1106,6 +1149,7 @@ def _rolling_edge_case(run, vc, rng):
     out = _call_rolling(run, vc, coords, **kwargs)
     if poisoned:
         _extras_ignored(run, "rolling_window", out, _call_rolling(run, vc, coords[:2], **kwargs))
+    _aliasing_twin(run, "rolling_window", coords, out, lambda c: _call_rolling(run, vc, c, **kwargs))
     if out is not None:
         run.sample("rolling_edge", {"lattice": [m + 1, p + 1], "step": step, "offset": off, "integer_dtype": bool(integer), "kwargs": kwargs,
                                     "centres_shape": list(out[0][0].shape)})
@@ -1182,6 +1226,7 @@ def _expanding_case(run, vc, rng):
         out = vc.expanding_window(coords, center=centre, sizes=sizes)
         if poisoned:
             _extras_ignored(run, "expanding_window", out, vc.expanding_window(coords[:2], center=centre, sizes=declared))
+        _aliasing_twin(run, "expanding_window", coords, out, lambda c: vc.expanding_window(c, center=centre, sizes=declared))
         sizes = declared
     run.sample("expanding", {"coordinates": coords[:2], "n_extra": len(coords) - 2, "center": centre, "sizes": sizes,
                              "selected_per_size": [int(np.size(i[0])) for i in out]})
